@@ -91,7 +91,8 @@ Inductive gval :=
 | VIface (v : gval)                              (* non-nil interface value *)
 | VNilIface
 | VStruct (sid : N) (fields : list (finfo * gval)) (* sid = identity of the struct type; every field, in declaration order *)
-| VTime (zero : bool) (text : bytes)             (* time.Time / compact_time.Time: String() of the compact time *)
+| VTime (zero : bool) (text : bytes)             (* time.Time / compact_time.Time: String() of the compact time, with a
+                                                    leading NUL when Validate rejects the value (Model/Rules.v time_token_valid) *)
 | VUrl (zero : bool) (text : bytes)              (* url.URL: its String() *)
 | VBigInt (zero : bool) (z : Z)
 | VBigFloat (zero : bool) (f : bigfloat)
@@ -943,6 +944,9 @@ Definition kept_names (cfg : icfg) (v : gval) : list bytes :=
 
 (* [vok rc cfg d v]: the value v, standing d containers deep, is within what the validator
    (limits rc) can accept from the iterator without recursion support:
+   - a time.Time / compact_time.Time is the zero value or one compact_time's Validate accepts
+     ([time_token_valid] of its token, rules OnTime, /repo bdbfb19: the iterator emits any time,
+     the validator refuses the others);
    - strings, resource ids, field names and media types are valid UTF-8 within the size limit;
      a media type has the form type/subtype the validator asks for ([media_type_valid], rules
      ValidateMediaType, /repo afaa1e5: a types.Media with any other media type is rejected);
@@ -958,6 +962,7 @@ Fixpoint vok (rc : rcfg) (cfg : icfg) (d : N) (v : gval) {struct v} : bool :=
   match v with
   | VString s => string_ok rc s
   | VUrl _ t => string_ok rc t
+  | VTime _ t => time_token_valid t
   | VNum _ k es => (len es * 64 <? two64) && length_ok rc (blen (num_bytes k es))
   | VBools _ l => (len l <? two64) && length_ok rc (blen (pack_bools l))
   | VMedia _ mt data => utf8_valid mt && media_type_valid mt && (blen data * 8 <? two64) && length_ok rc (blen data)
@@ -1018,6 +1023,7 @@ Fixpoint supported (rc : rcfg) (cfg : icfg) (d : N) (v : gval) {struct v} : bool
   match v with
   | VString s => string_ok rc s
   | VUrl _ t => string_ok rc t
+  | VTime _ t => time_token_valid t
   | VNum _ k es => (len es * 64 <? two64) && length_ok rc (blen (num_bytes k es))
   | VBools _ l => (len l <? two64) && length_ok rc (blen (pack_bools l))
   | VMedia _ mt data => utf8_valid mt && media_type_valid mt && (blen data * 8 <? two64) && length_ok rc (blen data)
@@ -1056,6 +1062,7 @@ Fixpoint supported_any_names (rc : rcfg) (cfg : icfg) (d : N) (v : gval) {struct
   match v with
   | VString s => string_ok rc s
   | VUrl _ t => string_ok rc t
+  | VTime _ t => time_token_valid t
   | VNum _ k es => (len es * 64 <? two64) && length_ok rc (blen (num_bytes k es))
   | VBools _ l => (len l <? two64) && length_ok rc (blen (pack_bools l))
   | VMedia _ mt data => utf8_valid mt && media_type_valid mt && (blen data * 8 <? two64) && length_ok rc (blen data)
